@@ -284,6 +284,11 @@ func Guard(obj interface{}, mu interface{}) {}
 // another. Nothing natively.
 func Role(k int) {}
 
+// BlockedReason: inside an OnBlocked callback under the engine, what the execution is blocked
+// on ("read on <conn> with no more scripted data", "send on full channel", ...). Natively the
+// replay only detects blocked reads, so it answers with that prefix.
+func BlockedReason() string { return "read on" }
+
 // Yield is a pre-emption point of the engine's cooperative scheduler; nothing natively.
 func Yield(what string) {}
 
